@@ -1812,17 +1812,22 @@ class NodeRequire:
 
             # lookup or read module
             moduleEnv = None
-            if moduleidentifier in modules:
-                moduleEnv = modules[moduleidentifier]
+            try:
+                data = pkgutil.get_data(
+                    __name__,
+                    "modules/" + modulefile.lower()
+                )
+            except FileNotFoundError:
+                data = None
+            modulekey = moduleidentifier
+            if data:
+                # bundled modules are found regardless of case and are
+                # registered once, however their name is spelled
+                modulekey = moduleidentifier.lower()
+            if modulekey in modules:
+                moduleEnv = modules[modulekey]
             else:
                 moduleEnv = environment.getBase().newEnv()
-                try:
-                    data = pkgutil.get_data(
-                        __name__,
-                        "modules/" + modulefile.lower()
-                    )
-                except FileNotFoundError:
-                    data = None
                 if data:
                     modulesrc = data.decode("utf-8")
                 else:
@@ -1851,7 +1856,7 @@ class NodeRequire:
                 import ckl.parser
                 node = ckl.parser.parse_script(modulesrc, "mod:"+modulefile[0:-4])
                 node.evaluate(moduleEnv)
-                modules[moduleidentifier] = moduleEnv
+                modules[modulekey] = moduleEnv
         finally:
             # also on failure: a failed load must not look like a
             # circular dependency to the next require
